@@ -5,7 +5,10 @@ E3 (configuration product vs. independent reference operators) + E2 (scripted ra
 Per cell (one test problem + one option combination) the check decides on the real code
   (a) forward model == documented operator, on the complete parameter basis for linear models
       (explicit-index convolution with the documented boundary rule and PSF centre, Abel quadrature,
-      Euler recurrence of the heat equation) and on a point lattice for the non-linear ones (Poisson, cubic);
+      Euler recurrence of the heat equation) and on a point lattice for the non-linear ones (Poisson, cubic); for the
+      PDE problems with an observation_grid_map: the reference solution observed at the mapped points IN THE ORDER the
+      map returned them (node values where the points are nodes, otherwise any member of the accepted interpolant
+      family), and the range geometry's grid == the mapped grid in that order;
   (b) exactData == model(exactSolution);
   (c) the noise exactly: the constructor is re-run under a scripted stream whose single normal request is
       answered by 0 and by every basis vector e_i; data - exactData must be an affine map T z with zero
@@ -41,7 +44,12 @@ RULE = ("cells = test problem x constructor options (sub-products listed in BOUN
         "vector; n = data size), each *light* cell (the option-class cells whose new facet is not a noise option) twice "
         "(zero and one generic vector); every cell evaluates the forward model on the complete parameter basis (linear "
         "models) or a point lattice (Poisson1D, WangCubic, mapped fields) and the posterior/likelihood/prior on a point "
-        "lattice; a cell is non-trivial when the problem was constructed, exactData is finite and not constant and (for "
+        "lattice; Heat1D / Poisson1D cells carry an observation_grid_map kind out of {none, ascending sub-grid by index, "
+        "by location} and the widened classes {same number of points at other locations, off-node ascending, existing "
+        "nodes in non-ascending order, off-node points in descending order, repeated nodes, a single point}: model output, "
+        "exactData and data are compared entry by entry with the reference solution observed at the mapped points in the "
+        "map's order, and the range geometry must carry exactly that grid; "
+        "a cell is non-trivial when the problem was constructed, exactData is finite and not constant and (for "
         "noisy problems) the stream was asked for exactly one normal vector; *user-prior* cells (problem x prior family x "
         "name kind x noise type x option sub-product) build the problem under the scripted stream (zero and one generic "
         "vector, plus a default-prior sibling when the name is 'that of the default prior') and evaluate prior / "
@@ -63,9 +71,15 @@ BOUND = {
              "(endpoint,max_time) in {(2.,.25),(2.,.5),(.5,.05),(.5,.1),(1.,.25),(int 2,.25)} x field {none,KL,Step} x "
              "observation map {none, by index, by location}; field {KL-3, Step default n_steps, KL_Full default / params, "
              "CustomKL params, Geometry objects StepExpansion / Continuous1D} x map {none, exp+imap, x^2+.5 without imap} "
-             "(endpoint 1; map none also endpoint 2); user exactSolution x 3 fields x 2 maps.  Poisson1D: dim {5,8} x 4 fields x observation map "
+             "(endpoint 1; map none also endpoint 2); user exactSolution x 3 fields x 2 maps; + widened observation maps: 12 "
+             "maps {compress, shrink, mid-points, reversed, last three reversed, three nearest ranked by distance, "
+             "permutation, off-node descending, every second node twice, (a,b,a), one node, one off-node point} x dim {5,8} "
+             "x (endpoint,max_time) {(1.,.1),(2.,.25)} x field {none,KL,Step} (light) and x dim 5, field none (full "
+             "noise identification).  Poisson1D: dim {5,8} x 4 fields x observation map "
              "x SNR; + light: endpoint {2., .5, int 2} x source {custom, default, linear} x 3 observation maps x field "
-             "{none,Step} (int 2: none); 9 field/map variants x endpoint {1,2}; user exactSolution.  Abel1D: dim {4,7} x 4 fields x SNR "
+             "{none,Step} (int 2: none); 9 field/map variants x endpoint {1,2}; user exactSolution; + the 12 widened observation maps x dim {5,8} x "
+             "endpoint {1.,2.} x field {none,KL+exp,Step} with the three sources in rotation (light) and x dim 5, field "
+             "none (full).  Abel1D: dim {4,7} x 4 fields x SNR "
              "{100,20}; + endpoint {2., .5, int 2, 1.} x 11 field/map variants.  WangCubic: noise_std {1,.5,2.} x data x prior.  "
              "Histories (one operation on the live object, components before == after): 7 problems (Deconvolution1D dim 8, "
              "legacy dim 8, Deconvolution2D dim 4, Heat1D / Poisson1D / Abel1D dim 5, WangCubic) x default prior x {MAP, ML, "
@@ -82,7 +96,7 @@ BOUND = {
                 "dims {8,16}; light option classes as quick with dims {7,8,16}, PSF_size {default, dim+1, dim+2, dim+3, "
                 "2dim, 2dim+1, 3dim, 3dim+1} and both noise types; Deconvolution2D dim {5,6,8} x 4 PSFs x PSF_size "
                 "{3,4,5} x 5 BCs x 2 noise types x 2 noise_std x 2 phantoms, light classes for dims {5,6}; PDE problems "
-                "and Abel1D as quick with dims {5,8,12} / {4,7,12}; histories: full product 7 problems x prior {default, "
+                "and Abel1D as quick with dims {5,8,12} / {4,7,12} (full widened-observation-map cells for dims {5,8}); histories: full product 7 problems x prior {default, "
                 "assigned Gaussian, LMRF, CMRF} x {MAP, ML, sample_posterior, sample_prior, UQ}; user-supplied prior: 6 "
                 "families x 4 name kinds x [Deconvolution1D dims {7,8,16} x 2 noise types x PSF {gauss, custom} (size 4) x "
                 "5 BCs; legacy dims {8,16} x PSF {gauss, custom} x 2 noise types; Deconvolution2D dims {4,5} x PSF {gauss, "
@@ -103,6 +117,16 @@ ASSUMPTIONS = [
     "time steps of Heat1D are taken from the constructed problem (their number is not documented) but must run from 0 "
     "to max_time; the solution grid must be the dim interior nodes of (0, endpoint); the solve itself is an independent "
     "dense reference",
+    "observation_grid_map (documented as 'returns a sub-grid of the nodes where observations are available'; the PDE "
+    "classes document grid_obs as 'the grid on which the observed solution should be interpolated'): entry i of model "
+    "output / exactData / data belongs to point i of the mapped grid as returned (order and repetitions kept), which "
+    "must be the grid of the range geometry.  Points that are solution nodes (|distance| <= 1e-12): the nodal value "
+    "of the independent reference solve is the only admissible answer.  Off-node points: the interpolation rule is "
+    "undocumented - accepted family = piecewise linear (own arithmetic), quadratic spline, cubic not-a-knot spline, "
+    "natural cubic spline through all nodes (scipy.interpolate's general spline constructors are the trusted base), "
+    "evaluated point by point.  All catalogue points lie inside the hull of the nodes (extrapolation not covered); a "
+    "map returning a bare scalar is not covered.  A constructor that refuses a map (Heat1D refuses every non-ascending "
+    "point order: its tensor-product spline evaluation demands sorted points) is a counted refusal",
     "Abel1D: midpoint quadrature of int_0^s f(t)/sqrt(s-t) dt on [0, endpoint] with dim cells (h = endpoint/dim)",
     "field parameterisations from the geometry docstrings (KLExpansion, KLExpansion_Full - its default cor_len / nu are "
     "accepted in the reading of the signature and of the docstring -, StepExpansion); CustomKL has no closed form: the "
@@ -286,6 +310,13 @@ def cells(tier, seed):
                 for snr in (200, 50):
                     out.append({"fam": "poisson", "dim": dim, "field": field, "obs": obs, "SNR": snr, "cat": k})
 
+    # --- widened observation_grid_map facet, full cells (noise map identified on the complete basis: e.g. two
+    #     sensors on the same node carry independent noise)
+    for dim in ((5,) if not T else (5, 8)):
+        for obs in OBS_WIDE:
+            out.append({"fam": "heat", "dim": dim, "field": "none", "map": "none", "obs": obs, "SNR": 200, "cat": k})
+            out.append({"fam": "poisson", "dim": dim, "field": "none", "obs": obs, "SNR": 200, "cat": k})
+
     # --- PDE option classes (light): endpoint (float above / below 1, int), max_time, source, every field type with
     #     default and non-default field_params, map with and without imap, observation map by index / by location,
     #     user-supplied exactSolution
@@ -325,6 +356,13 @@ def cells(tier, seed):
                 pde("poisson", dim, field, "none", (200, 50)[i % 2], L=L, src=("custom", "default", "linear")[i % 3])
         for field in ("none", "KL+exp"):
             pde("poisson", dim, field, "sub", 200, xs=True)
+        # widened observation_grid_map facet x end-point x field (see _OBS_CLASS)
+        for obs in OBS_WIDE:
+            for L, Tm in ((1.0, 0.1), (2.0, 0.25)):
+                for fh, fp in (("none", "none"), ("KL", "KL+exp"), ("Step", "Step")):
+                    i += 1
+                    pde("heat", dim, fh, obs, (200, 50)[i % 2], L=L, T=Tm)
+                    pde("poisson", dim, fp, obs, (200, 50)[i % 2], L=L, src=("custom", "default", "linear")[i % 3])
     for dim in ((4, 7) if not T else (4, 7, 12)):
         for field in ("none", "KL", "Step", "KL+exp"):
             for snr in (100, 20):
@@ -443,17 +481,6 @@ def _columns(fn, n):
     return np.array(cols).T
 
 
-def _select(grid_sol, grid_obs):
-    """Indices of the solution nodes that make up the observation sub-grid."""
-    idx = []
-    for g in np.asarray(grid_obs, float):
-        j = int(np.argmin(np.abs(np.asarray(grid_sol, float) - g)))
-        if abs(grid_sol[j] - g) > 1e-12:
-            raise HarnessError("observation node %r is not a solution node" % g)
-        idx.append(j)
-    return idx
-
-
 # ----------------------------------------------------------------------------------------
 # (c) noise, decided exactly; (b) exact data; (d) components and posterior
 # ----------------------------------------------------------------------------------------
@@ -549,8 +576,9 @@ def check_exact_data(res, comp, facet, prob, is_par):
         res.nontrivial = False
 
 
-def check_components(res, comp, prob, var, pts, has_info=True):
-    """(d): same model / data / geometries everywhere and posterior.logd == reference log-likelihood + prior.logd."""
+def check_components(res, comp, prob, var, pts, has_info=True, sfx=""):
+    """(d): same model / data / geometries everywhere and posterior.logd == reference log-likelihood + prior.logd.
+    sfx: option facet appended to the signatures of the evaluation verdicts (widened observation-map classes)."""
     model, data, info = prob.get_components()
     res.evaluations += 1
     lik = prob.likelihood
@@ -613,15 +641,15 @@ def check_components(res, comp, prob, var, pts, has_info=True):
             got = float(_arr(post.logd(x)).ravel()[0])
             gl = float(_arr(lik.logd(x)).ravel()[0])
         except Exception as e:
-            res.fail("C17|%s|posterior|raises" % comp, "posterior/likelihood logd raised %r" % (e,))
+            res.fail("C17|%s|posterior|raises%s" % (comp, sfx), "posterior/likelihood logd raised %r" % (e,))
             return
         res.evaluations += 1
         if not close(gl, ll_ref, 1e-9):
-            res.fail("C17|%s|likelihood|logd" % comp, "likelihood.logd(x) = %r, Gaussian log-density of the data given "
+            res.fail("C17|%s|likelihood|logd%s" % (comp, sfx), "likelihood.logd(x) = %r, Gaussian log-density of the data given "
                      "model(x) with the stated noise = %r" % (gl, ll_ref), x=x)
             return
         if not (np.isfinite(lp) and close(got, ll_ref + lp, 1e-9)) and not (not np.isfinite(lp) and got == lp):
-            res.fail("C17|%s|posterior|logd" % comp, "posterior.logd(x) = %r != log-likelihood %r + prior.logd %r" %
+            res.fail("C17|%s|posterior|logd%s" % (comp, sfx), "posterior.logd(x) = %r != log-likelihood %r + prior.logd %r" %
                      (got, ll_ref, lp), x=x)
             return
         worst = max(worst, abs(got - ll_ref - lp))
@@ -987,13 +1015,81 @@ def _field(cell, grid):
     return mk, readings, fmap, imap
 
 
+# observation_grid_map catalogue.  Existing kinds: "sub" (ascending sub-grid by index), "mask" (by location, the form of
+# the docstring's example).  Widened facet (class = the name used in signatures):
+#   same-count         as many points as solution nodes, at other locations (compressed towards the first node;
+#                      shrunk about the centre = every point shifted by a fraction of a cell)
+#   off-node           fewer points, between the nodes, ascending (cell mid-points)
+#   nodes-reordered    existing nodes in non-ascending order (all reversed; the last three reversed; the three nodes
+#                      nearest to a point ranked by distance; a permutation of all nodes)
+#   off-node-reordered points between the nodes, descending
+#   repeated           nodes listed more than once (ascending: every second node twice; non-ascending: a, b, a)
+#   single             one point (a node; a point between two nodes), returned as a 1-element array
+_OBS_CLASS = {"none": "none", "sub": "sub", "mask": "mask",
+              "compress": "same-count", "shrink": "same-count", "mid": "off-node",
+              "rev": "nodes-reordered", "revsub": "nodes-reordered", "ranked": "nodes-reordered", "perm": "nodes-reordered",
+              "offrev": "off-node-reordered", "rep": "repeated", "rep2": "repeated",
+              "single": "single", "singleoff": "single"}
+OBS_WIDE = ["compress", "shrink", "mid", "rev", "revsub", "ranked", "perm", "offrev", "rep", "rep2", "single", "singleoff"]
+_OBS_DESCENT = ("rev", "revsub", "ranked", "perm", "offrev", "rep2")     # must not come out ascending (self-check)
+
+
+def _obs_sfx(kind):
+    """Signature suffix of the evaluation verdicts for the widened map classes (existing signatures stay as they are)."""
+    return ",obs=%s" % _OBS_CLASS[kind] if kind in OBS_WIDE else ""
+
+
+def _perm(n):
+    m = [q for q in (2, 3, 5, 7, 11) if n % q][0]           # multiplier coprime with n: i -> (m i + 1) mod n is a bijection
+    return [(m * i + 1) % n for i in range(n)]
+
+
 def _obs_map(kind, endpoint=1.0):
     if kind == "none":
         return None
     if kind == "sub":                            # by index
         return lambda g: g[1::2]
-    c = 0.45 * float(endpoint)                   # by location, the form of the docstring's example
-    return lambda g: g[np.where(g > c)]
+    c = 0.45 * float(endpoint)
+    if kind == "mask":                           # by location, the form of the docstring's example
+        return lambda g: g[np.where(g > c)]
+    return {
+        "compress": lambda g: g[0] + 0.5 * (g - g[0]),
+        "shrink": lambda g: 0.5 * (g[0] + g[-1]) + 0.75 * (g - 0.5 * (g[0] + g[-1])),
+        "mid": lambda g: g[:-1] + 0.5 * np.diff(g),
+        "rev": lambda g: g[::-1],
+        "revsub": lambda g: g[::-1][:3],
+        "ranked": lambda g: g[np.argsort(np.abs(g - c), kind="stable")[:3]],      # sensors ranked by distance from c
+        "perm": lambda g: g[_perm(len(g))],
+        "offrev": lambda g: (g[:-1] + 0.3 * np.diff(g))[::-1],
+        "rep": lambda g: np.repeat(g[1::2], 2),
+        "rep2": lambda g: g[[1, 3, 1]],
+        "single": lambda g: g[[len(g) // 2]],
+        "singleoff": lambda g: np.array([g[1] + 0.3 * (g[2] - g[1])]),
+    }[kind]
+
+
+def _obs_points(kind, om, grid):
+    """The mapped grid (own application of the cell's map to the solution nodes), with the catalogue's self-check."""
+    if om is None:
+        return None
+    pts = np.array(om(np.array(grid, dtype=float)), dtype=float).ravel()
+    if kind in _OBS_DESCENT and pts.size > 1 and np.all(np.diff(pts) > 0):
+        raise HarnessError("observation map %r came out ascending on %r" % (kind, grid))
+    return pts
+
+
+def _check_range_grid(res, comp, prob, expected, cls, tag):
+    """The range geometry handed out says where entry i of model output / exactData / data lives: it must be the mapped
+    grid, in the order the map returned it (no map: the solution grid)."""
+    res.evaluations += 1
+    g = getattr(prob.model.range_geometry, "grid", None)
+    ok = g is not None and np.asarray(g).size == expected.size and close(_arr(g).ravel(), expected, 1e-12)
+    if not ok:
+        res.fail("C17|%s|range-geometry|obs=%s%s" % (comp, cls, tag), "grid of the model's range geometry %r is not the "
+                 "observation grid %r (in the order the observation_grid_map returned it)" %
+                 (None if g is None else _arr(g).ravel().tolist(), expected.tolist()))
+    else:
+        res.outcomes.add("range-grid:ok")
 
 
 def _snr_readings(snr):
@@ -1031,7 +1127,7 @@ def _spelling_refusal(res, comp, cell, evaluator, e):
                  "docstring, but accepts the same options in lower case" % (e,))
 
 
-def _finish_pde(res, comp, cell, prob, build, op_ref, freadings, mp, fpts, pts, facet, opfacet):
+def _finish_pde(res, comp, cell, prob, build, op_ref, freadings, mp, fpts, pts, facet, opfacet, sfx=""):
     """Common tail of Heat1D / Poisson1D / Abel1D.
 
     op_ref(f) -> list of admissible reference observations for the *function values* f.  The forward model is
@@ -1108,7 +1204,7 @@ def _finish_pde(res, comp, cell, prob, build, op_ref, freadings, mp, fpts, pts, 
     s = getattr(pz, "infoString", None)
     if s is not None and str(cell["SNR"]) not in s:
         res.fail("C17|%s|infoString|noise" % comp, "infoString %r does not state the SNR %r" % (s, cell["SNR"]))
-    check_components(res, comp, pz, var, pts)
+    check_components(res, comp, pz, var, pts, sfx=sfx)
     res.state("components")
     if res.sample is None:
         res.sample = {"forward_max_abs_error": worst}
@@ -1161,14 +1257,18 @@ def eval_heat(res, cell):
         res.fail("C17|%s|time-grid|max_time" % comp, "time steps %r do not run from 0 to max_time" % ts[[0, -1]].tolist())
     if not close(_arr(pde.grid_sol), grid, 1e-12):
         res.fail("C17|%s|grid|interior-nodes%s" % (comp, tag), "solution grid is not the dim interior nodes of (0, endpoint)")
-    sel = list(range(dim)) if om is None else _select(grid, om(grid))
-    res.outcomes.add("nobs=%d,nt=%d" % (len(sel), ts.size))
+    gobs = _obs_points(cell["obs"], om, grid)
+    ocls = _OBS_CLASS[cell["obs"]]
+    _check_range_grid(res, comp, prob, grid if gobs is None else gobs, ocls, tag)
+    res.outcomes.add("nobs=%d,nt=%d" % (dim if gobs is None else gobs.size, ts.size))
 
     def op_ref(u0):
-        return [tp.heat_final(u0, dx, ts, pde.method)[sel]]
+        u = tp.heat_final(u0, dx, ts, pde.method)
+        return [u] if gobs is None else tp.observe_refs(grid, u, gobs)
     pts = _points(freadings[0][0].shape[1], k)
     _finish_pde(res, comp, cell, prob, build, op_ref, freadings, mp, _fun_points(dim, k), pts,
-                "field=%s,map=%s" % (cell["field"], cell.get("map", "none")), "operator,obs=%s%s" % (cell["obs"], tag))
+                "field=%s,map=%s" % (cell["field"], cell.get("map", "none")), "operator,obs=%s%s" % (ocls, tag),
+                sfx=_obs_sfx(cell["obs"]))
 
 
 def _source(xs):
@@ -1227,6 +1327,7 @@ def eval_poisson(res, cell):
     gs = _arr(pde.grid_sol)
     if gs.size != N or not (np.all(gs > 0) and np.all(gs < endpoint) and np.all(np.diff(gs) > 0)):
         res.fail("C17|%s|grid|interior-nodes%s" % (comp, tag), "solution grid is not dim-1 increasing interior nodes")
+        return
     # nodes of the discretisation: where the source term is evaluated.  The docstring does not give them: every
     # reasonable reading is accepted, but they must be the nodes the problem hands out as its solution grid (the
     # observation map selects by these, the range geometry plots against these)
@@ -1247,16 +1348,23 @@ def eval_poisson(res, cell):
                      (gs.tolist(), seen[0].tolist()))
         node_readings = [seen[0]]
     rhs_list = [srcf(x) for x in node_readings]
-    sel = list(range(N)) if om is None else _select(gs, om(gs))
-    res.outcomes.add("nobs=%d" % len(sel))
+    gobs = _obs_points(cell["obs"], om, gs)
+    ocls = _OBS_CLASS[cell["obs"]]
+    _check_range_grid(res, comp, prob, gs if gobs is None else gobs, ocls, tag)
+    res.outcomes.add("nobs=%d" % (N if gobs is None else gobs.size))
 
     def op_ref(kappa):
-        return [tp.poisson_solution(kappa, rhs, h)[sel] for rhs in rhs_list for h in (endpoint / N, endpoint / (N + 1))]
+        out = []
+        for rhs in rhs_list:
+            for h in (endpoint / N, endpoint / (N + 1)):
+                u = tp.poisson_solution(kappa, rhs, h)
+                out += [u] if gobs is None else tp.observe_refs(gs, u, gobs)
+        return out
     n = freadings[0][0].shape[1]
     # non-linear in the conductivity: positive lattice (ones, ones + every basis direction, two generic points)
     pts = _fun_points(n, k, positive=True) if mp is None else _points(n, k)
     _finish_pde(res, comp, cell, prob, build, op_ref, freadings, mp, _fun_points(dim, k, positive=True), pts,
-                "field=%s" % cell["field"], "operator,obs=%s%s" % (cell["obs"], tag))
+                "field=%s" % cell["field"], "operator,obs=%s%s" % (ocls, tag), sfx=_obs_sfx(cell["obs"]))
 
 
 def eval_abel(res, cell):
